@@ -63,6 +63,16 @@ Theorem C14_patch_apply : forall m n sh,
         end).
 Proof. exact patch_apply. Qed.
 
+(* the rename target is used verbatim, whatever identifier shape it has (IPAddr, Address_V2, fooBar,
+   _Private, a non-ASCII name ...): util.rs type_patch applies no sanitisation / re-casing *)
+Theorem C14_patch_rename_verbatim : forall m n sh p r,
+  assoc n m = Some p -> pa_rename p = Some r ->
+  fst (type_patch m n) = r /\
+  det_name (e_det (new_named m n sh)) = Some r /\
+  (forall T f i, get_det T i = Some (e_det (new_named m n sh)) -> s_type_mod (sp_settings T) = None ->
+                 type_ident T (S f) i = Some r).
+Proof. exact patch_rename_verbatim. Qed.
+
 (* ... and every use site spells the name stored in the entry: uses are ids *)
 Theorem C14_patch_use_sites : forall T f i d n,
   get_det T i = Some d -> det_name d = Some n -> s_type_mod (sp_settings T) = None ->
@@ -304,6 +314,12 @@ Example ex_colliding_last_segments :
              (mkEntry (DEnum (u "E") None TagExternal [mkVariant (u "a") (u "A") VSimple] false []) [u "::enum_ordinalize::Ord"]) =
   map u ["::enum_ordinalize::Ord"; "::rkyv::Serialize"; "::serde::Deserialize"; "::serde::Serialize";
          "::stable_hash::Hash"; "Clone"; "Copy"; "Debug"; "Eq"; "Hash"; "Ord"; "PartialEq"; "PartialOrd"]%string.
+Proof. vm_compute. reflexivity. Qed.
+
+Example ex_rename_shapes_verbatim :
+  map (fun r => det_name (e_det (new_named [(u "Addr", mkPatch (Some (u r)) [])] (u "Addr") (NStruct None [] false))))
+      ["IPAddr"; "Address_V2"; "_Private"; "snake_case"; "fooBar"; "T"]%string =
+  map (fun r => Some (u r)) ["IPAddr"; "Address_V2"; "_Private"; "snake_case"; "fooBar"; "T"]%string.
 Proof. vm_compute. reflexivity. Qed.
 
 Example ex_patch :
